@@ -149,7 +149,7 @@ func selftestDeterminism(args []string) int {
 						}
 					}
 				}
-				if rec != ref && j.flavour == "race" && (strings.Contains(ref, `"special":"marathon"`) || strings.Contains(ref, `"special":"deep-passover"`)) {
+				if rec != ref && j.flavour == "race" && (strings.Contains(ref, `"special":"marathon"`) || strings.Contains(ref, `"special":"deep-passover"`) || strings.Contains(ref, `"special":"very-long"`)) {
 					continue // marathons are skipped in the race build (they would take half a minute each)
 				}
 				if rec != ref {
